@@ -302,6 +302,13 @@ func (s *Sched) Stuck() bool {
 // and whether it gave up (deadlock, or more than max steps).
 func (s *Sched) Drain(max int) (steps []int, labels []int, gaveUp bool) {
 	for !s.AllDone() {
+		// every unfinished thread waits for the lock: for good only if that is still so after a grace period (several
+		// threads released together - readers of an RWMutex - may queue for the lock again behind each other for a
+		// moment, which absorb sampled as "still waiting")
+		for try := 0; try < 60 && s.Stuck(); try++ {
+			time.Sleep(2 * time.Millisecond)
+			s.absorb()
+		}
 		if s.Stuck() || len(steps) >= max {
 			return steps, labels, true
 		}
